@@ -82,7 +82,6 @@ struct C14T : Property
 		bool inside_lib = false;
 	};
 	static std::vector<TState> *g_ts;
-	static int g_switch_inside;
 
 	static std::string do_op(const Op &op)
 	{
@@ -249,7 +248,6 @@ struct C14T : Property
 	}
 };
 std::vector<C14T::TState> *C14T::g_ts = nullptr;
-int C14T::g_switch_inside = 0;
 REGISTER_PROPERTY(C14T)
 } // namespace
 #endif
